@@ -38,7 +38,7 @@ prop("C02", [RO.rule_EF1, RO.rule_OR2_responder, RO.rule_CR, RO.rule_OR2_gatekee
      "owner removal precedes Watcher/Responder and cascades in the DB, foreign keys switched on in the production constructor (OR1, OR2g, SQ1). "
      "NOT decided: that exactly the disconnected block's entries are purged (container contents, C19).",
      technique="who-may-call + interprocedural origin tracing + SQL schema tables")
-prop("C03", [RO.rule_OR3, LK.rule_CBS, RO.rule_OR2_watcher, SQ.rule_SQ3, SQ.rule_SQ1, LK.rule_AT2, RO.rule_OR2_gatekeeper],
+prop("C03", [RO.rule_OR3, LK.rule_CBS, RO.rule_OR2_watcher, SQ.rule_SQ3, SQ.rule_SQ1, SQ.rule_SQ5_tower, LK.rule_AT2, RO.rule_OR2_gatekeeper],
      STATIC + "Decided (ordering of durable effects, what crash-safety rests on): last-known-block written by one function only on Ok(Better(tip)) of the poll that delivered the blocks; "
      "bootstrap poll before any API is spawned; tower key regenerated only if --overwritekey or none stored (OR3); slots charged (successfully) before the store (CBS); "
      "multi-statement writes are one committed sqlite transaction (SQ3); cascades on (SQ1); one critical section and one DB delete per balance update (AT2); "
@@ -50,7 +50,7 @@ prop("C04", [RO.rule_OR2_responder, RO.rule_CR, RO.rule_EF2, RO.rule_EF3, SQ.rul
      "InMempoolSince(height - 6) (OR2r); refund flag constant and true exactly for check_confirmations' list (EF2); constants 100/6 (EF3). "
      "NOT decided: arithmetic over chain evolutions (off-by-one of the completion height, cadence, status after a reorg of depth d).",
      technique="MIR path facts + comparison-shape and constant-origin rules")
-prop("C05", [PL.rule_PL1, PL.rule_PL3, PL.rule_PL7, PN.rule_PN_plugin],
+prop("C05", [PL.rule_PL1, PL.rule_PL3, PL.rule_PL7, PN.rule_PN_plugin, SQ.rule_SQ5_client],
      STATIC + "Decided: every reply class of the per-tower loop ends in a durable record (PL1); pending->accepted/invalid adds before it deletes (PL3); mutators persist on the known-tower path, "
      "only mutators write, pending work is re-queued at start-up and on idle wake-up, loaders agree (PL7); no tower reply or repeated notification reaches an unwrap (PNp). "
      "NOT decided: SIGKILL durability, exactly-one-of accounting across towers over a history.",
@@ -61,7 +61,7 @@ prop("C06", [RT.rule_AU1, RO.rule_OR2_watcher],
      "has_subscription_expired is the Ok payload of authenticate_user; the signed message is the request-specific one and its template equals what the client signs; "
      "authenticate_user returns Ok only for a recovered key that is a registered user; appointments of different users under one locator are handled independently per block (OR2w: every (locator, uuid) pair is visited, a failure of one never ends the loop). NOT decided: cryptographic claims, isolation over multi-user histories.",
      technique="branch-fact dataflow + origin tracing (identity provenance) + literal cross-check")
-prop("C07", [RT.rule_SL, LK.rule_AT2, RO.rule_EF2, RO.rule_EF3, SQ.rule_SQ3],
+prop("C07", [RT.rule_SL, LK.rule_AT2, RO.rule_EF2, RO.rule_EF3, SQ.rule_SQ3, SQ.rule_SQ5_tower],
      STATIC + "Decided: the only subtraction of slots is guarded by `required - used <= available` and equals available - (slots(new) - slots(stored for this uuid)); renewal uses checked_add; "
      "refund adds slots(stored blob) and is persisted in the deletion's transaction; one critical section per balance update; only completion refunds; one divisor (2048) at all charge/refund sites; "
      "the balance reported is the one computed and persisted. NOT decided: the conservation law over histories, the float slot formula per blob length.",
@@ -108,7 +108,7 @@ prop("C16", [WT.rule_WT1, WT.rule_WT2, WT.rule_WT3, WT.rule_WT4, RT.rule_AU1],
      STATIC + "Decided: per endpoint both sides (de)serialise the same generated message type (so names, renames and adapters agree by construction); the two ApiError structs are twins; status Display/FromStr are inverse "
      "bijections and agree with the discriminants; custom serde adapters are inverse pairs; signed layouts determine their fields; the signed message templates agree. NOT decided: round-trip identity over all values, body-size limit vs largest request.",
      technique="type-argument agreement at (de)serialisation call sites + table extraction")
-prop("C18", [PL.rule_PL7, SQ.rule_SQ1, SQ.rule_SQ3, PL.rule_PL3],
+prop("C18", [PL.rule_PL7, SQ.rule_SQ1, SQ.rule_SQ3, PL.rule_PL3, SQ.rule_SQ5_client],
      STATIC + "Decided: every mutator changes memory and disk together and only mutators do; status reconstruction agrees between the two loaders; client schema cascades from towers (and appointments) with foreign keys on; "
      "multi-statement writes are transactions; add-before-delete. NOT decided: the reference-counting rule of delete_pending_appointment over operation sequences; memory == disk after histories.",
      technique="who-may-write/call tables + must-follow analysis + SQL schema tables")
